@@ -146,7 +146,49 @@ class Canon(ast.NodeTransformer):
                 and isinstance(sl.left, ast.Call) and isinstance(sl.left.func, ast.Name) and sl.left.func.id == "len" and len(sl.left.args) == 1 \
                 and ast.dump(sl.left.args[0]) == ast.dump(node.value) and isinstance(node.value, (ast.Name, ast.Attribute)):
             node.slice = ast.copy_location(ast.UnaryOp(op=ast.USub(), operand=ast.Constant(value=sl.right.value)), sl)
+        # slices without a step: x[0:k] -> x[:k];  x[a:len(x)] -> x[a:];  x[a:len(x) - 1] -> x[a:-1]   (also through a local
+        # `n = len(x)` of a sequence the function neither rebinds nor resizes)
+        if isinstance(sl, ast.Slice) and sl.step is None:
+            if isinstance(sl.lower, ast.Constant) and type(sl.lower.value) is int and sl.lower.value == 0:
+                sl.lower = None
+            if sl.upper is not None and isinstance(node.value, (ast.Name, ast.Attribute)):
+                if self._is_len_of(sl.upper, node.value):
+                    sl.upper = None
+                elif isinstance(sl.upper, ast.BinOp) and isinstance(sl.upper.op, ast.Sub) and isinstance(sl.upper.right, ast.Constant) and sl.upper.right.value == 1 and type(sl.upper.right.value) is int \
+                        and self._is_len_of(sl.upper.left, node.value):
+                    sl.upper = ast.copy_location(ast.UnaryOp(op=ast.USub(), operand=ast.Constant(value=1)), sl.upper)
         return node
+
+    _len_alias: dict = {}
+
+    def _is_len_of(self, e: ast.AST, seq: ast.AST) -> bool:
+        if isinstance(e, ast.Call) and isinstance(e.func, ast.Name) and e.func.id == "len" and len(e.args) == 1 and not e.keywords and ast.dump(e.args[0]) == ast.dump(seq):
+            return True
+        return isinstance(e, ast.Name) and isinstance(seq, ast.Name) and self._len_alias.get(e.id) == seq.id
+
+    @staticmethod
+    def _length_aliases(fn) -> dict:
+        """{n: x} for locals bound exactly once as `n = len(x)` where x is a name the function never rebinds, resizes or hands out"""
+        binds: dict = {}
+        stores: dict = {a.arg: 1 for a in fn.args.posonlyargs + fn.args.args + fn.args.kwonlyargs}
+        unsafe: set = set()
+        for n in ast.walk(fn):
+            if isinstance(n, ast.Name) and isinstance(n.ctx, (ast.Store, ast.Del)):
+                stores[n.id] = stores.get(n.id, 0) + 1
+            if isinstance(n, ast.Assign) and len(n.targets) == 1 and isinstance(n.targets[0], ast.Name) and isinstance(n.value, ast.Call) and isinstance(n.value.func, ast.Name) \
+                    and n.value.func.id == "len" and len(n.value.args) == 1 and isinstance(n.value.args[0], ast.Name) and not n.value.keywords:
+                binds[n.targets[0].id] = n.value.args[0].id
+            if isinstance(n, ast.Call) and isinstance(n.func, ast.Attribute) and isinstance(n.func.value, ast.Name) and n.func.attr in ("append", "extend", "insert", "pop", "remove", "clear", "add", "discard", "update", "popitem",
+                                                                                                                              "appendleft", "popleft", "setdefault"):
+                unsafe.add(n.func.value.id)
+            if isinstance(n, (ast.Subscript,)) and isinstance(n.ctx, (ast.Store, ast.Del)) and isinstance(n.value, ast.Name):
+                unsafe.add(n.value.id)
+            if isinstance(n, ast.AugAssign) and isinstance(n.target, ast.Name):
+                unsafe.add(n.target.id)
+                stores[n.target.id] = stores.get(n.target.id, 0) + 1
+            if isinstance(n, (ast.Global, ast.Nonlocal)):
+                unsafe |= set(n.names)
+        return {k: x for k, x in binds.items() if stores.get(k) == 1 and stores.get(x, 0) == 1 and x not in unsafe and k not in unsafe}
 
     def visit_Call(self, node: ast.Call):
         self.generic_visit(node)
@@ -374,13 +416,30 @@ class Canon(ast.NodeTransformer):
             if isinstance(n, ast.Name):
                 nc[n.id] = nc.get(n.id, 0) + 1
         self._name_count = nc
+        saved_la = self._len_alias
+        self._len_alias = self._length_aliases(node)
         self._fdepth += 1
         self.generic_visit(node)
         self._fdepth -= 1
+        self._len_alias = saved_la
         node.body = self._stmts(node.body)
+        node.body = self._procedure_guards(node)
         self._captured = saved
         self._name_count = saved_nc
         return node
+
+    def _procedure_guards(self, fn):
+        """In a function (not a generator) that returns no value:  if c: return; REST  ->  if not c: REST   (top level of the body, repeatedly)"""
+        body = fn.body
+        valued = any(isinstance(n, ast.Return) and n.value is not None and not (isinstance(n.value, ast.Constant) and n.value.value is None) for n in _scope_nodes(fn))
+        if valued or any(isinstance(n, (ast.Yield, ast.YieldFrom)) for n in _scope_nodes(fn)):
+            return body
+        for i in range(len(body) - 2, -1, -1):
+            st = body[i]
+            if isinstance(st, ast.If) and not st.orelse and len(st.body) == 1 and isinstance(st.body[0], ast.Return) and body[i + 1:]:
+                neg = self.visit(ast.copy_location(ast.UnaryOp(op=ast.Not(), operand=st.test), st.test))
+                body = body[:i] + [ast.copy_location(ast.If(test=neg, body=body[i + 1:], orelse=[]), st)]
+        return body
 
     visit_AsyncFunctionDef = visit_FunctionDef
 
@@ -410,6 +469,16 @@ class Canon(ast.NodeTransformer):
 
     visit_For = visit_While = _loop
     visit_With = visit_Try = visit_ExceptHandler = _body_holder
+
+
+def _scope_nodes(fn):
+    todo = list(fn.body)
+    while todo:
+        n = todo.pop()
+        yield n
+        if isinstance(n, (ast.FunctionDef, ast.AsyncFunctionDef, ast.ClassDef, ast.Lambda)):
+            continue
+        todo.extend(ast.iter_child_nodes(n))
 
 
 def _literal_value(n: ast.AST) -> bool:
@@ -474,12 +543,189 @@ def _new_literal_constants(tree: ast.Module, module_name):
     return {k: v for k, v in binds.items() if k not in known and stores.get(k, 0) == 1 and _literal_value(v)}
 
 
+class _InlineNewLocals:
+    """Extract-variable undone.  A local that the reviewed function did not have, bound exactly once by a plain assignment and
+    read exactly once, by the statement that immediately follows (in that statement's own expressions: not in a nested block,
+    a loop condition, a lambda, a comprehension or a nested function), is a name somebody gave to a sub-expression: the
+    expression is put back.  Functions that were not part of the reviewed tree are left alone."""
+
+    def __init__(self, module_name):
+        from .shapes import reference
+
+        self.module = module_name
+        self.ref = reference()
+
+    def run(self, tree: ast.Module):
+        self._scope(tree.body, "")
+        return tree
+
+    def _scope(self, body, qual):
+        for st in body:
+            if isinstance(st, ast.ClassDef):
+                self._scope(st.body, f"{qual}.{st.name}" if qual else st.name)
+            elif isinstance(st, (ast.FunctionDef, ast.AsyncFunctionDef)):
+                q = f"{qual}.{st.name}" if qual else st.name
+                self._function(st, q)
+
+    def _function(self, fn, qual):
+        for sub in _own_statements(fn):
+            if isinstance(sub, (ast.FunctionDef, ast.AsyncFunctionDef)):
+                self._function(sub, f"{qual}.<locals>.{sub.name}")
+        from .shapes import reviewed_locals
+
+        known = self.ref.get(f"{self.module}:{qual}")
+        had = reviewed_locals(f"{self.module}:{qual}")
+        if known is None or had is None:
+            return
+        known = set(had) | {a.arg for a in ast.walk(fn.args) if isinstance(a, ast.arg)}
+        # only as many locals as the function has gained are candidates: renaming the reviewed ones creates no new local
+        extra = len(stored_names(fn)) - len(had)
+        if extra <= 0 or len(self._candidates(fn, known)) > extra:
+            return
+        while True:
+            cands = self._candidates(fn, known)
+            if not cands:
+                break
+            block, i, t = cands[0]
+            _Subst(t, block[i].value).apply(block[i + 1])
+            del block[i]
+
+    @staticmethod
+    def _candidates(fn, known):
+        """(block, index, name) of every assignment that introduces a single-use local the reviewed function did not have"""
+        stores, loads = {}, {}
+        for n in _walk_scope(fn):
+            if isinstance(n, ast.Name):
+                d = stores if isinstance(n.ctx, (ast.Store, ast.Del)) else loads
+                d[n.id] = d.get(n.id, 0) + 1
+            elif isinstance(n, (ast.Global, ast.Nonlocal)):
+                for nm in n.names:
+                    stores[nm] = 99
+        # names read from nested scopes count as many reads
+        for n in ast.walk(fn):
+            if n is not fn and isinstance(n, (ast.FunctionDef, ast.AsyncFunctionDef, ast.Lambda, ast.ListComp, ast.SetComp, ast.DictComp, ast.GeneratorExp)):
+                for m in ast.walk(n):
+                    if isinstance(m, ast.Name):
+                        loads[m.id] = loads.get(m.id, 0) + 9
+        params = {a.arg for a in fn.args.posonlyargs + fn.args.args + fn.args.kwonlyargs} | ({fn.args.vararg.arg} if fn.args.vararg else set()) | ({fn.args.kwarg.arg} if fn.args.kwarg else set())
+        out = []
+        for block in _blocks(fn):
+            for i in range(len(block) - 1):
+                st, nxt = block[i], block[i + 1]
+                if not (isinstance(st, ast.Assign) and len(st.targets) == 1 and isinstance(st.targets[0], ast.Name)):
+                    continue
+                t = st.targets[0].id
+                if t in known or t in params or stores.get(t) != 1 or loads.get(t) != 1:
+                    continue
+                if any(isinstance(n, (ast.Yield, ast.YieldFrom, ast.Await, ast.NamedExpr)) for n in ast.walk(st.value)):
+                    continue
+                uses = [n for e in _header_exprs(nxt) for n in ast.walk(e) if isinstance(n, ast.Name) and n.id == t and isinstance(n.ctx, ast.Load)]
+                if len(uses) == 1:
+                    out.append((block, i, t))
+        return out
+
+
+def stored_names(fn):
+    """names bound by statements of the function's own scope (parameters not included)"""
+    out = set()
+    for n in _walk_scope(fn):
+        if isinstance(n, ast.Name) and isinstance(n.ctx, (ast.Store, ast.Del)):
+            out.add(n.id)
+    return out
+
+
+def _own_statements(fn):
+    """statements of the function, not entering nested functions/classes (which are yielded themselves)"""
+    todo = list(fn.body)
+    while todo:
+        st = todo.pop()
+        yield st
+        if isinstance(st, (ast.FunctionDef, ast.AsyncFunctionDef, ast.ClassDef)):
+            continue
+        for f in ("body", "orelse", "finalbody"):
+            todo.extend(getattr(st, f, []) or [])
+        for h in getattr(st, "handlers", []) or []:
+            todo.extend(h.body)
+        for c in getattr(st, "cases", []) or []:
+            todo.extend(c.body)
+
+
+def _walk_scope(fn):
+    """every node of the function's own scope (nested functions, lambdas and comprehensions not entered)"""
+    todo = list(fn.body)
+    while todo:
+        n = todo.pop()
+        yield n
+        if isinstance(n, (ast.FunctionDef, ast.AsyncFunctionDef, ast.ClassDef, ast.Lambda, ast.ListComp, ast.SetComp, ast.DictComp, ast.GeneratorExp)):
+            continue
+        todo.extend(ast.iter_child_nodes(n))
+
+
+def _blocks(fn):
+    yield fn.body
+    for st in _own_statements(fn):
+        if isinstance(st, (ast.FunctionDef, ast.AsyncFunctionDef, ast.ClassDef)):
+            continue
+        for f in ("body", "orelse", "finalbody"):
+            b = getattr(st, f, None)
+            if isinstance(b, list) and b:
+                yield b
+        for h in getattr(st, "handlers", []) or []:
+            yield h.body
+
+
+def _header_exprs(st):
+    """the expressions a statement evaluates once, itself, before any nested block"""
+    if isinstance(st, (ast.Return, ast.Expr)):
+        return [st.value] if st.value is not None else []
+    if isinstance(st, ast.Assign):
+        return [st.value] + [t for t in st.targets if not isinstance(t, ast.Name)]
+    if isinstance(st, ast.AugAssign):
+        return [st.value]
+    if isinstance(st, ast.AnnAssign):
+        return [st.value] if st.value is not None else []
+    if isinstance(st, ast.If):
+        return [st.test]
+    if isinstance(st, (ast.For, ast.AsyncFor)):
+        return [st.iter]
+    if isinstance(st, ast.Raise):
+        return [e for e in (st.exc, st.cause) if e is not None]
+    if isinstance(st, ast.Assert):
+        return [st.test]
+    return []
+
+
+class _Subst(ast.NodeTransformer):
+    def __init__(self, name, value):
+        self.name, self.value = name, value
+
+    def apply(self, st):
+        for f in ("value", "test", "iter", "exc", "cause"):
+            e = getattr(st, f, None)
+            if isinstance(e, ast.AST):
+                setattr(st, f, self.visit(e))
+        if isinstance(st, ast.Assign):
+            st.targets = [t if isinstance(t, ast.Name) else self.visit(t) for t in st.targets]
+
+    def visit_Lambda(self, node):
+        return node
+
+    visit_ListComp = visit_SetComp = visit_DictComp = visit_GeneratorExp = visit_Lambda
+
+    def visit_Name(self, node):
+        if node.id == self.name and isinstance(node.ctx, ast.Load):
+            return ast.copy_location(copy.deepcopy(self.value), node)
+        return node
+
+
 def canonicalise(tree: ast.Module, module_name=None) -> ast.Module:
     if os.environ.get("SA_NO_CANON"):
         return tree
     table = _new_literal_constants(tree, module_name)
     if table:
         tree = _InlineNewConstants(table).visit(tree)
+    if module_name:
+        tree = _InlineNewLocals(module_name).run(tree)
     new = Canon().visit(tree)
     ast.fix_missing_locations(new)
     return new
